@@ -109,9 +109,17 @@ def decades(rng):
     return out
 
 
+POINT = 99          # carry_upto of the regime "|x| is 10^k exactly"
+
+
 def regimes(rng, k, precs, neg):
     """feasible rounding regimes of decade k inside the range: [(Reg, sample text)]"""
     a, b = Fraction(10) ** (k - 1), Fraction(10) ** k
+    if rng[2] is not None and rng[2] == a and rng[3]:
+        # the range ends *at* the lower edge of the decade (`value <= 10.0` where the ladder says `<`): the one value of the decade on
+        # the path is the power of ten itself - a first digit 1 and nothing but zeros at every precision, which is what a value of the
+        # decade below looks like when it rounds up (POINT: at every precision)
+        return [Reg(neg, k - 1, POINT)]
     ps = sorted(p for p in precs if p >= -k)
     cuts = [(b - Fraction(1, 2) / Fraction(10) ** p) for p in ps]
     out = []
@@ -236,6 +244,7 @@ class FloatAnalysis:
         known = set(SCI) | {q}
         follow = lambda name: name not in known          # noqa: E731  (the scientific helpers stay calls: C12-R2 decides them)
         eng = Engine(ctx, BULK, self.fn, param=self.param, inline=follow, strict_locals=True)
+        eng.index_errors = True              # `table[position]` past the end of a literal table takes the code's own `except IndexError`
         leaves = eng.run()
         self.leaves = expand_helpers(ctx, leaves, self.param, known, inline=follow)
         self.cases = {}          # id(leaf) -> [(Reg, final models or None, inner models or None)]
